@@ -98,9 +98,18 @@ func loadKnown() KnownFile {
 func runCheck(cfg *propertyConfig, tier, repo string, seed int) int {
 	t0 := time.Now()
 	workDir = filepath.Join(verifRoot, "work", cfg.ID)
+	evidenceDir := filepath.Join(verifRoot, "evidence")
+	replayDir := filepath.Join(verifRoot, "replay", cfg.ID)
+	if repo != "/repo" {
+		// runs against a scratch copy (seeded changes, mutation tests) never touch the registered
+		// evidence / replay files, which must describe /repo itself
+		tag := fileSafe.ReplaceAllString(repo, "_")
+		workDir = filepath.Join(verifRoot, "work", "scratch"+tag, cfg.ID)
+		evidenceDir = filepath.Join(verifRoot, "work", "scratch"+tag, "evidence")
+		replayDir = filepath.Join(verifRoot, "work", "scratch"+tag, "replay", cfg.ID)
+	}
 	_ = os.RemoveAll(workDir)
 	_ = os.MkdirAll(workDir, 0o755)
-	replayDir := filepath.Join(verifRoot, "replay", cfg.ID)
 	_ = os.RemoveAll(replayDir)
 	_ = os.MkdirAll(replayDir, 0o755)
 	timeout := 8
@@ -394,6 +403,9 @@ func runCheck(cfg *propertyConfig, tier, repo string, seed int) int {
 			samples = append(samples, map[string]interface{}{"obligation": so.Name, "kind": "structural", "at": so.File, "result": map[bool]string{true: "discharged", false: "failed"}[so.OK]})
 		}
 	}
+	// an obligation listed as a known finding is reported (KNOWN-FINDING line, evidence key
+	// known_findings_hit) and is not part of what this run claims as proved
+	nObl -= len(knownHit)
 	if nObl == 0 {
 		fail("no-obligations", "the check generated no obligation at all (vacuous run)", "", nil)
 	}
@@ -441,9 +453,9 @@ func runCheck(cfg *propertyConfig, tier, repo string, seed int) int {
 			"known_findings_hit": knownHit,
 		},
 	}
-	_ = os.MkdirAll(filepath.Join(verifRoot, "evidence"), 0o755)
+	_ = os.MkdirAll(evidenceDir, 0o755)
 	b, _ := json.MarshalIndent(ev, "", " ")
-	_ = os.WriteFile(filepath.Join(verifRoot, "evidence", cfg.ID+".json"), b, 0o644)
+	_ = os.WriteFile(filepath.Join(evidenceDir, cfg.ID+".json"), b, 0o644)
 	fmt.Printf("%s tier=%s: %d obligations, %d discharged, %d functions (%d proved, %d trusted), %d violation(s), %d known finding(s), %.1fs\n",
 		cfg.ID, tier, nObl, nDis, len(results)+len(bresults), countStatus(fev, "proved"), len(trustedFuncs), len(violations), len(knownHit), wall)
 	if len(violations) > 0 {
